@@ -1,12 +1,669 @@
 package syncsim
 
 import (
+	"context"
+	"fmt"
+	"os"
+	"path/filepath"
+	"sort"
+	"strings"
 	"testing"
+	"time"
+	"unicode/utf8"
+
+	"golang.org/x/sys/unix"
+
+	"github.com/mutagen-io/mutagen/pkg/filesystem"
+	"github.com/mutagen-io/mutagen/pkg/logging"
+	"github.com/mutagen-io/mutagen/pkg/synchronization"
+	"github.com/mutagen-io/mutagen/pkg/synchronization/core"
+	"github.com/mutagen-io/mutagen/pkg/synchronization/endpoint/local"
 
 	"verif/simkit"
 )
 
-// Component scenarios (one endpoint or bare core calls) are added here.
-func componentScenarios(property string) []string                 { return nil }
-func genComponent(p *simkit.Plan, r *simkit.Rand, tier string)      {}
-func execComponent(t *testing.T, plan *simkit.Plan) *simkit.Result  { return nil }
+// Component scenarios drive one or two real local endpoints directly (the
+// harness plays the controller), inside a bubble, with the syscall hook used
+// for counting, errno injection and cancellation at exact operation indices.
+
+func componentScenarios(property string) []string {
+	switch property {
+	case "C09":
+		return []string{"transition-faults"}
+	case "C12":
+		return []string{"scan"}
+	}
+	return moreComponentScenarios(property)
+}
+
+func genComponent(p *simkit.Plan, r *simkit.Rand, tier string) {
+	switch p.Scenario {
+	case "transition-faults":
+		genTransitionFaults(p, r, tier)
+	case "scan":
+		genScan(p, r, tier)
+	default:
+		genMoreComponents(p, r, tier)
+	}
+}
+
+func execComponent(t *testing.T, plan *simkit.Plan) *simkit.Result {
+	switch plan.Scenario {
+	case "transition-faults":
+		return execTransitionFaults(t, plan)
+	case "scan":
+		return execScan(t, plan)
+	}
+	return execMoreComponents(t, plan)
+}
+
+// comp is the shared setup of component scenarios.
+type comp struct {
+	h       *harness
+	d       *diskState
+	s       *simkit.Sim
+	logger  *logging.Logger
+	dataDir string
+	// per-iteration syscall bookkeeping (activity-filtered)
+	count    map[string]int
+	failAt   map[string]map[int]error // activity -> index -> errno
+	cancelAt map[string]int
+	cancel   context.CancelFunc
+	faulted  []string // root-relative paths that received an injected fault
+	opsSeen  []string
+}
+
+func newComp(s *simkit.Sim, plan *simkit.Plan) *comp {
+	dataDir := os.Getenv("MUTAGEN_DATA_DIRECTORY")
+	if dataDir == "" {
+		d, _ := os.MkdirTemp("/dev/shm", "verif-syncsim-data-")
+		dataDir = d
+		os.Setenv("MUTAGEN_DATA_DIRECTORY", d)
+	}
+	cleanDataDir(dataDir)
+	h := &harness{s: s, plan: plan, dataDir: dataDir, ideal: true, userSeq: map[string]int64{}, modelSide: map[string]bool{}}
+	if err := h.setupDisk(); err != nil {
+		panic(err)
+	}
+	c := &comp{h: h, d: h.disk, s: s, dataDir: dataDir}
+	c.logger = logging.NewLogger(logging.LevelDebug, &logSink{h: h})
+	c.reset()
+	filesystem.VerifSyscallHook = c.hook
+	return c
+}
+
+func (c *comp) close() {
+	c.h.teardownDisk()
+}
+
+func (c *comp) reset() {
+	c.count = map[string]int{}
+	c.failAt = map[string]map[int]error{}
+	c.cancelAt = map[string]int{}
+	c.cancel = nil
+	c.faulted = nil
+	c.opsSeen = nil
+}
+
+// hook counts operations per activity and injects the configured fault.
+func (c *comp) hook(op string, dirfd int, path string, dirfd2 int, path2 string) error {
+	d := c.d
+	abs := joinFD(dirfd, path)
+	if op == "read" || op == "fstat" || op == "fchmod" || op == "readdir" {
+		abs = resolveFD(dirfd)
+	}
+	side, rel := d.classify(abs)
+	var side2, rel2, abs2 string
+	if op == "renameat" || op == "renameat2" {
+		abs2 = joinFD(dirfd2, path2)
+		side2, rel2 = d.classify(abs2)
+	}
+	for _, a := range []string{abs, abs2} {
+		if a != "" && (a == d.canary || strings.HasPrefix(a, d.canary+"/")) {
+			c.s.Violate("C17", "escaped-root", op, "%s on %q resolves into the canary directory", op, a)
+		}
+	}
+	if side == "" && side2 == "" {
+		return nil
+	}
+	activity := simkit.LabelFromStack(stackLabels)
+	c.count[activity]++
+	n := c.count[activity]
+	if activity == "transition" || activity == "scan" {
+		c.opsSeen = append(c.opsSeen, op)
+	}
+	if at, ok := c.cancelAt[activity]; ok && at == n && c.cancel != nil {
+		c.cancel()
+		c.s.Count("fault.cancel", 1)
+	}
+	if e, ok := c.failAt[activity][n]; ok {
+		if e == unix.EXDEV && op != "renameat" && op != "renameat2" {
+			e = unix.EIO
+		}
+		r := rel
+		if side == "" {
+			r = rel2
+		}
+		c.faulted = append(c.faulted, r)
+		c.s.Count("fault.fs_errno."+errnoName(e), 1)
+		c.s.Logf("fs", "%s op %d (%s %q) fails with %v", activity, n, op, maskTemp(r), e)
+		return e
+	}
+	return nil
+}
+
+func errnoName(e error) string {
+	switch e {
+	case unix.EIO:
+		return "EIO"
+	case unix.EACCES:
+		return "EACCES"
+	case unix.ENOSPC:
+		return "ENOSPC"
+	case unix.ENOENT:
+		return "ENOENT"
+	case unix.EXDEV:
+		return "EXDEV"
+	case unix.ENOTEMPTY:
+		return "ENOTEMPTY"
+	case unix.EEXIST:
+		return "EEXIST"
+	case unix.EINTR:
+		return "EINTR"
+	}
+	return "other"
+}
+
+func (c *comp) endpoint(side string, alpha bool, cfg *synchronization.Configuration) synchronization.Endpoint {
+	ep, err := local.NewEndpoint(c.logger.Sublogger(side), c.d.roots[side], "sync_verifcomponentsession0000000000000000000000", synchronization.DefaultVersion, cfg, alpha)
+	if err != nil {
+		panic(fmt.Errorf("cannot create %s endpoint: %w", side, err))
+	}
+	return ep
+}
+
+// rebuild recreates both roots from the plan's init operations.
+func (c *comp) rebuild(plan *simkit.Plan) {
+	for _, r := range c.d.roots {
+		rmAll(r)
+		os.Mkdir(r, 0o755)
+	}
+	c.d.stamp = 1_000_000_000
+	for _, op := range plan.Ops {
+		if op.Actor == "init" {
+			c.d.userOp(op)
+		}
+	}
+	cleanDataDir(c.dataDir)
+}
+
+// ------------------------------------------------------ C09 transition faults
+
+func genTransitionFaults(p *simkit.Plan, r *simkit.Rand, tier string) {
+	c := p.Cfg
+	var id int64 = 100
+	for i := r.Range(2, 10); i > 0; i-- {
+		genEdit(r, p, "init", &id, r.Chance(1, 4))
+	}
+	c["owner"] = int64(r.Intn(2))
+	c["internal_staging"] = int64(r.Intn(2))
+	c["errno_seed"] = int64(r.Uint64() >> 1)
+	c["max_iterations"] = 60
+	if tier == "thorough" {
+		c["max_iterations"] = 400
+	}
+}
+
+// topLevelPlan builds the changes that make dst equal to src's synchronizable
+// content, one change per differing top-level name (harness's own diff).
+func topLevelPlan(src, dst *core.Entry) []*core.Change {
+	var out []*core.Change
+	names := map[string]bool{}
+	for n := range src.GetContents() {
+		names[n] = true
+	}
+	for n := range dst.GetContents() {
+		names[n] = true
+	}
+	var sorted []string
+	for n := range names {
+		sorted = append(sorted, n)
+	}
+	sort.Strings(sorted)
+	for _, n := range sorted {
+		s := syncPart(src.GetContents()[n])
+		dRaw := dst.GetContents()[n]
+		if dRaw != nil && unsyncKind(dRaw.Kind) {
+			continue
+		}
+		d := syncPart(dRaw)
+		if !deepEqual(s, d) {
+			out = append(out, &core.Change{Path: n, Old: d, New: s})
+		}
+	}
+	return out
+}
+
+func execTransitionFaults(t *testing.T, plan *simkit.Plan) *simkit.Result {
+	var nontrivial bool
+	res := simkit.Run(t, plan, simkit.Options{MaxSteps: 1000, Horizon: time.Hour, RealTimeout: 120 * time.Second}, func(s *simkit.Sim) {
+		c := newComp(s, plan)
+		defer c.close()
+		cfg := &synchronization.Configuration{
+			SynchronizationMode: core.SynchronizationMode_SynchronizationModeTwoWaySafe,
+			WatchMode:           synchronization.WatchMode_WatchModeNoWatch,
+			Ignores:             []string{"*.ign"},
+		}
+		if plan.C("owner") == 1 {
+			cfg.DefaultOwner = "id:0"
+			cfg.DefaultGroup = "id:0"
+		}
+		if plan.C("internal_staging") == 1 {
+			cfg.StageMode = synchronization.StageMode_StageModeInternal
+		}
+		er := simkit.NewRand(uint64(plan.C("errno_seed")), 3)
+		// iteration executes the whole pipeline with one fault configuration
+		// and returns the number of hooked operations the transition issued.
+		iteration := func(name string, failAt int, errno error, cancelAt int, dropStaged bool, second int) (int, []string) {
+			c.rebuild(plan)
+			c.reset()
+			src := c.endpoint("alpha", true, cfg)
+			dst := c.endpoint("beta", false, cfg)
+			defer src.Shutdown()
+			defer dst.Shutdown()
+			ctx := context.Background()
+			ss, err, _ := src.Scan(ctx, nil, true)
+			if err != nil {
+				return 0, nil
+			}
+			ds, err, _ := dst.Scan(ctx, nil, true)
+			if err != nil || ss.Content == nil || ds.Content == nil || ss.Content.Kind != core.EntryKind_Directory || ds.Content.Kind != core.EntryKind_Directory {
+				return 0, nil
+			}
+			transitions := topLevelPlan(ss.Content, ds.Content)
+			if len(transitions) == 0 {
+				return 0, nil
+			}
+			paths, digests := core.TransitionDependencies(transitions)
+			if len(paths) > 0 {
+				filtered, sigs, receiver, err := dst.Stage(paths, digests)
+				if err != nil {
+					s.Logf("driver", "%s: stage failed: %v", name, err)
+					return 0, nil
+				}
+				if len(filtered) > 0 {
+					if err := src.Supply(filtered, sigs, receiver); err != nil {
+						s.Logf("driver", "%s: supply failed: %v", name, err)
+						return 0, nil
+					}
+				}
+			}
+			if dropStaged {
+				// The staged files vanish behind the stager's back.
+				filepath.Walk(filepath.Join(c.dataDir, "staging"), func(p string, info os.FileInfo, err error) error {
+					if err == nil && info.Mode().IsRegular() {
+						os.Remove(p)
+					}
+					return nil
+				})
+				filepath.Walk(c.d.roots["beta"], func(p string, info os.FileInfo, err error) error {
+					if err == nil && info.Mode().IsRegular() && strings.Contains(p, ".mutagen-staging") {
+						os.Remove(p)
+					}
+					return nil
+				})
+				s.Count("fault.staged_files_removed", 1)
+			}
+			c.reset()
+			tctx, cancel := context.WithCancel(ctx)
+			defer cancel()
+			if failAt > 0 {
+				c.failAt["transition"] = map[int]error{failAt: errno}
+				if second > 0 {
+					c.failAt["transition"][second] = unix.EIO
+				}
+			}
+			if cancelAt > 0 {
+				c.cancelAt["transition"] = cancelAt
+				c.cancel = cancel
+			}
+			results, problems, missing, terr := dst.Transition(tctx, transitions)
+			n := c.count["transition"]
+			ops := append([]string(nil), c.opsSeen...)
+			c.failAt, c.cancelAt = map[string]map[int]error{}, map[string]int{}
+			s.Count("enum.fault_positions", 1)
+			if terr != nil {
+				s.Logf("driver", "%s: transition returned error %v", name, terr)
+				return n, ops
+			}
+			if len(results) != len(transitions) {
+				s.Violate("C09", "result-count", "Transition", "%s: %d transitions, %d results", name, len(transitions), len(results))
+				return n, ops
+			}
+			tree := c.d.walkTree("beta")
+			fresh, ferr, _ := dst.Scan(ctx, nil, true)
+			for i, tr := range transitions {
+				on := lookup(tree, tr.Path)
+				if !deepEqual(syncPart(on), results[i]) {
+					s.Violate("C09", "result-differs-from-disk", classOfOps(ops, failAt, cancelAt, dropStaged), "%s: transition at %q (%s -> %s) reported %s but the root holds %s", name, tr.Path, render(tr.Old), render(tr.New), render(results[i]), render(on))
+				}
+				if ferr == nil && fresh != nil {
+					if got := syncPart(lookup(fresh.Content, tr.Path)); !deepEqual(got, results[i]) && !hasProblem(lookup(fresh.Content, tr.Path)) {
+						s.Violate("C09", "scan-disagrees-with-result", classOfOps(ops, failAt, cancelAt, dropStaged), "%s: transition at %q reported %s but a scan taken right after sees %s", name, tr.Path, render(results[i]), render(lookup(fresh.Content, tr.Path)))
+					}
+				}
+				if !deepEqual(results[i], tr.New) {
+					found := false
+					for _, p := range problems {
+						if pathWithin(p.Path, tr.Path) || pathWithin(tr.Path, p.Path) {
+							found = true
+						}
+					}
+					if !found && !missing {
+						s.Violate("C09", "failure-without-problem", classOfOps(ops, failAt, cancelAt, dropStaged), "%s: transition at %q ended as %s instead of %s but no problem was reported for it", name, tr.Path, render(results[i]), render(tr.New))
+					}
+					s.Count("probe.partial_results", 1)
+				}
+			}
+			return n, ops
+		}
+		n0, ops0 := iteration("fault-free", 0, nil, 0, false, 0)
+		if n0 == 0 {
+			return
+		}
+		nontrivial = true
+		budget := int(plan.C("max_iterations"))
+		// Only errors a healthy kernel can return for an operation on content
+		// that exists: ENOENT / EEXIST / ENOTEMPTY would contradict the disk.
+		errs := []error{unix.EIO, unix.EACCES, unix.ENOSPC}
+		for i := 1; i <= n0 && budget > 0 && !s.Violated(); i++ {
+			e := errs[er.Intn(len(errs))]
+			iteration(fmt.Sprintf("errno-%s-at-%d/%d(%s)", errnoName(e), i, n0, ops0[i-1]), i, e, 0, false, 0)
+			budget--
+			if ops0[i-1] == "renameat" || ops0[i-1] == "renameat2" {
+				// Cross-device rename: the copy fallback runs; then fail
+				// inside the fallback too.
+				n1, ops1 := iteration(fmt.Sprintf("EXDEV-at-%d/%d", i, n0), i, unix.EXDEV, 0, false, 0)
+				budget--
+				s.Count("probe.cross_device_fallback", 1)
+				for j := i + 1; j <= n1 && j <= i+12 && budget > 0 && !s.Violated(); j++ {
+					iteration(fmt.Sprintf("EXDEV-at-%d-then-EIO-at-%d/%d(%s)", i, j, n1, ops1[j-1]), i, unix.EXDEV, 0, false, j)
+					budget--
+				}
+			}
+			if er.Chance(1, 2) && budget > 0 {
+				iteration(fmt.Sprintf("cancel-at-%d/%d", i, n0), 0, nil, i, false, 0)
+				budget--
+			}
+		}
+		if budget > 0 && !s.Violated() {
+			iteration("staged-files-missing", 0, nil, 0, true, 0)
+		}
+	})
+	res.NonTrivial = nontrivial
+	res.Fingerprint = res.JournalHash
+	return res
+}
+
+func hasProblem(e *core.Entry) bool {
+	found := false
+	walk(e, "", func(_ string, x *core.Entry) {
+		if x.Kind == core.EntryKind_Problematic {
+			found = true
+		}
+	})
+	return found
+}
+
+// classOfOps names the failing call site: the operation that received the
+// fault (stable across runs), for matching against known findings.
+func classOfOps(ops []string, failAt, cancelAt int, drop bool) string {
+	switch {
+	case drop:
+		return "staged-files-missing"
+	case cancelAt > 0:
+		return "cancelled"
+	case failAt > 0 && failAt <= len(ops):
+		return "fault-at-" + ops[failAt-1]
+	}
+	return "fault-free"
+}
+
+// ------------------------------------------------------------------ C12 scan
+
+func genScan(p *simkit.Plan, r *simkit.Rand, tier string) {
+	c := p.Cfg
+	c["symlink_mode"] = int64(r.Intn(3))     // portable, ignore, posix-raw
+	c["permissions_mode"] = int64(r.Intn(2)) // portable, manual
+	c["data_seed"] = int64(r.Uint64() >> 1)
+	c["entries"] = int64(r.Range(1, 30))
+	c["fault"] = int64(r.Intn(3)) // 0 none, 1 one errno, 2 EINTR storm
+	c["fault_at"] = int64(r.Range(1, 120))
+	c["errno"] = int64(simkit.Pick(r, []int{1, 2}))
+}
+
+// buildScanTree populates the beta root with a seeded random tree.
+func buildScanTree(c *comp, plan *simkit.Plan) {
+	root := c.d.roots["beta"]
+	rmAll(root)
+	os.Mkdir(root, 0o755)
+	r := simkit.NewRand(uint64(plan.C("data_seed")), 11)
+	dirs := []string{root}
+	names := []string{"a", "b", "c", "file.txt", "x.ign", "keep.ign", "Ünïcode", "with space", temporaryPrefix + "leftover", "\xff\xfebad", "zz"}
+	for i := int64(0); i < plan.C("entries"); i++ {
+		dir := dirs[r.Intn(len(dirs))]
+		name := names[r.Intn(len(names))]
+		if r.Chance(1, 3) {
+			name = fmt.Sprintf("n%d", r.Intn(50))
+		}
+		p := filepath.Join(dir, name)
+		if _, err := os.Lstat(p); err == nil {
+			continue
+		}
+		switch r.Intn(10) {
+		case 0, 1, 2:
+			if strings.Count(p[len(root):], "/") < 4 {
+				os.Mkdir(p, os.FileMode(simkit.Pick(r, []int{0o755, 0o700, 0o775})))
+				dirs = append(dirs, p)
+			}
+		case 3, 4, 5, 6:
+			data := r.Bytes(r.SmallBiased(3000), 256)
+			os.WriteFile(p, data, 0o600)
+			os.Chmod(p, os.FileMode(simkit.Pick(r, []int{0o644, 0o600, 0o755, 0o711, 0o640, 0o604, 0o001})))
+		case 7:
+			os.Symlink(simkit.Pick(r, []string{"a", "../b", "./x/../y", "/abs/olute", "..", "../../../../../up", "c:drive", "back\\slash", "x//y", ""}), p)
+		case 8:
+			mkSpecial(p)
+		case 9:
+			os.Symlink(strings.Repeat("q", simkit.Pick(r, []int{10, 247, 248})), p)
+		}
+	}
+}
+
+// referenceScan is the walker extended with symlink / permission modes and the
+// naming of non-UTF-8 entries.
+func referenceScan(abs, rel string, symlinkMode, permMode int64) *core.Entry {
+	st, err := os.Lstat(abs)
+	if err != nil {
+		return nil
+	}
+	if rel != "" && strings.HasSuffix(abs, ".ign") && (st.IsDir() || st.Mode().IsRegular() || st.Mode()&os.ModeSymlink != 0) {
+		return &core.Entry{Kind: core.EntryKind_Untracked}
+	}
+	switch {
+	case st.Mode().IsDir():
+		e := dirEntry()
+		names, _ := os.ReadDir(abs)
+		for _, n := range names {
+			name := n.Name()
+			if strings.HasPrefix(name, temporaryPrefix) {
+				continue
+			}
+			if !utf8.ValidString(name) {
+				e.Contents[strings.ToValidUTF8(name, "�")+" (non-UTF-8)"] = &core.Entry{Kind: core.EntryKind_Problematic, Problem: "non-UTF-8 filename"}
+				continue
+			}
+			childRel := name
+			if rel != "" {
+				childRel = rel + "/" + name
+			}
+			if ch := referenceScan(filepath.Join(abs, name), childRel, symlinkMode, permMode); ch != nil {
+				e.Contents[name] = ch
+			}
+		}
+		return e
+	case st.Mode().IsRegular():
+		if strings.HasSuffix(abs, ".ign") {
+			return &core.Entry{Kind: core.EntryKind_Untracked}
+		}
+		data, err := os.ReadFile(abs)
+		if err != nil {
+			return &core.Entry{Kind: core.EntryKind_Problematic, Problem: "unreadable"}
+		}
+		sum := sha1Sum(data)
+		return &core.Entry{Kind: core.EntryKind_File, Digest: sum, Executable: permMode == 0 && st.Mode()&0o111 != 0}
+	case st.Mode()&os.ModeSymlink != 0:
+		if strings.HasSuffix(abs, ".ign") {
+			return &core.Entry{Kind: core.EntryKind_Untracked}
+		}
+		target, err := os.Readlink(abs)
+		switch symlinkMode {
+		case 1:
+			return &core.Entry{Kind: core.EntryKind_Untracked}
+		case 2:
+			if err != nil || target == "" {
+				return &core.Entry{Kind: core.EntryKind_Problematic, Problem: "invalid"}
+			}
+			return &core.Entry{Kind: core.EntryKind_SymbolicLink, Target: target}
+		}
+		if err != nil || !portableTarget(rel, target) {
+			return &core.Entry{Kind: core.EntryKind_Problematic, Problem: "invalid symbolic link"}
+		}
+		return &core.Entry{Kind: core.EntryKind_SymbolicLink, Target: target}
+	default:
+		return &core.Entry{Kind: core.EntryKind_Untracked}
+	}
+}
+
+func execScan(t *testing.T, plan *simkit.Plan) *simkit.Result {
+	var nontrivial bool
+	res := simkit.Run(t, plan, simkit.Options{MaxSteps: 1000, Horizon: time.Hour}, func(s *simkit.Sim) {
+		c := newComp(s, plan)
+		defer c.close()
+		buildScanTree(c, plan)
+		cfg := &synchronization.Configuration{
+			WatchMode: synchronization.WatchMode_WatchModeNoWatch,
+			Ignores:   []string{"*.ign"},
+		}
+		switch plan.C("symlink_mode") {
+		case 0:
+			cfg.SymbolicLinkMode = core.SymbolicLinkMode_SymbolicLinkModePortable
+		case 1:
+			cfg.SymbolicLinkMode = core.SymbolicLinkMode_SymbolicLinkModeIgnore
+		case 2:
+			cfg.SymbolicLinkMode = core.SymbolicLinkMode_SymbolicLinkModePOSIXRaw
+		}
+		if plan.C("permissions_mode") == 1 {
+			cfg.PermissionsMode = core.PermissionsMode_PermissionsModeManual
+		}
+		ep := c.endpoint("beta", false, cfg)
+		defer ep.Shutdown()
+		c.reset()
+		switch plan.C("fault") {
+		case 1:
+			c.failAt["scan"] = map[int]error{int(plan.C("fault_at")): errnos[plan.C("errno")]}
+		case 2:
+			// Spurious EINTR is retried inside the wrappers: the hook cannot
+			// return EINTR without skipping the call, so EINTR is modelled
+			// by the retry loops being exercised through real signals only;
+			// here the slot is used for a second plain errno.
+			c.failAt["scan"] = map[int]error{int(plan.C("fault_at")): unix.EIO, int(plan.C("fault_at")) + 7: unix.EACCES}
+		}
+		snap, err, _ := ep.Scan(context.Background(), nil, true)
+		faulted := append([]string(nil), c.faulted...)
+		c.failAt = map[string]map[int]error{}
+		if err != nil {
+			if len(faulted) == 0 {
+				s.Violate("C12", "scan-error", "Scan", "fault-free scan failed: %v", err)
+			}
+			s.Count("probe.scan_failed_under_fault", 1)
+			return
+		}
+		nontrivial = true
+		ref := referenceScan(c.d.roots["beta"], "", plan.C("symlink_mode"), plan.C("permissions_mode"))
+		// Compare; differences are only acceptable at or below a faulted path
+		// where the snapshot reports a problem.
+		excused := func(p string) bool {
+			for _, f := range faulted {
+				if pathWithin(p, f) || pathWithin(f, p) {
+					return true
+				}
+			}
+			return false
+		}
+		var diffs []string
+		var cmp func(p string, a, b *core.Entry)
+		cmp = func(p string, a, b *core.Entry) {
+			if a == nil || b == nil {
+				if a != b && !excused(p) {
+					diffs = append(diffs, fmt.Sprintf("%q: snapshot %s, disk %s", p, render(a), render(b)))
+				}
+				return
+			}
+			if a.Kind == core.EntryKind_Problematic && excused(p) {
+				s.Count("probe.problematic_due_to_fault", 1)
+				return
+			}
+			if a.Kind != b.Kind || a.Executable != b.Executable || string(a.Digest) != string(b.Digest) || a.Target != b.Target {
+				if !excused(p) {
+					diffs = append(diffs, fmt.Sprintf("%q: snapshot %s, disk %s", p, render(a), render(b)))
+				}
+				return
+			}
+			names := map[string]bool{}
+			for n := range a.Contents {
+				names[n] = true
+			}
+			for n := range b.Contents {
+				names[n] = true
+			}
+			for n := range names {
+				cp := n
+				if p != "" {
+					cp = p + "/" + n
+				}
+				cmp(cp, a.Contents[n], b.Contents[n])
+			}
+		}
+		cmp("", snap.Content, ref)
+		sort.Strings(diffs)
+		if len(diffs) > 0 {
+			s.Violate("C12", "snapshot-differs", fmt.Sprintf("symlinks%d-perms%d", plan.C("symlink_mode"), plan.C("permissions_mode")), "%d difference(s), first: %s (faulted paths %v)", len(diffs), diffs[0], faulted)
+		}
+		// Counts describe the snapshot's own content.
+		var dirs, files, links, size uint64
+		walk(snap.Content, "", func(p string, x *core.Entry) {
+			switch x.Kind {
+			case core.EntryKind_Directory:
+				dirs++
+			case core.EntryKind_File:
+				files++
+				if st, err := os.Lstat(filepath.Join(c.d.roots["beta"], p)); err == nil {
+					size += uint64(st.Size())
+				}
+			case core.EntryKind_SymbolicLink:
+				links++
+			}
+		})
+		if snap.Directories != dirs || snap.Files != files || snap.SymbolicLinks != links || (snap.TotalFileSize != size && len(faulted) == 0) {
+			s.Violate("C12", "counts-differ", "Snapshot", "snapshot reports %d directories, %d files, %d links, %d bytes; its content has %d, %d, %d, %d", snap.Directories, snap.Files, snap.SymbolicLinks, snap.TotalFileSize, dirs, files, links, size)
+		}
+		if hasProblem(snap.Content) {
+			s.Count("probe.problematic_entries", 1)
+		}
+		s.Logf("scan", "%d entries ok: %s", plan.C("entries"), render(snap.Content))
+	})
+	res.NonTrivial = nontrivial
+	res.Fingerprint = res.JournalHash
+	return res
+}
